@@ -146,6 +146,15 @@ Proof.
   destruct (i1 ++ i2); [reflexivity|]. rewrite new_jump_s. reflexivity.
 Qed.
 
+Lemma inl_subexpr ix d l r cx s s1 p1 i1 s2 p2 i2 : kind_of d = Compile.KSubexpr ->
+  inl l (Compile.plain (cx_containing cx)) s = Ok (s1, p1, i1) ->
+  inl r (Compile.plain (cx_containing cx)) (emit s1 (I_UpdateValue, ONone) (Some ix)) = Ok (s2, p2, i2) ->
+  inl (Compile.T ix d (Some l) (Some r)) cx s = Ok (s2, p1 ++ p2, i1 ++ i2).
+Proof.
+  intros Hk H1 H2. cbn [Compile.inl]. rewrite Hk. cbn [present andb negb]. unfold seq2.
+  rewrite H1. cbn [bind]. cbv beta iota. rewrite H2. cbn [bind]. reflexivity.
+Qed.
+
 Lemma inl_reapply ix a cx s s1 p1 i1 :
   inl a (Compile.plain (cx_containing cx)) s = Ok (s1, p1, i1) ->
   inl (Compile.T ix D_Reapply None (Some a)) cx s =
@@ -186,11 +195,13 @@ Proof.
   - cbn [of_frag to_frag c_inl f_inl]. repeat (apply Forall_app; split);
       try (apply IHe1; assumption); try (apply IHe2; assumption).
     destruct (in_list lk k); [constructor|]. constructor; [cbn; discriminate|constructor].
-  - cbn [of_frag to_frag c_inl f_inl]. apply IHe; exact F.
+  - cbn [of_frag to_frag c_inl f_inl]. apply IHe; assumption.
   - destruct ic; cbn [of_frag to_frag c_inl f_inl]; (apply Forall_app; split; [apply IHe1; assumption|]).
     + constructor; [destruct neg; cbn; discriminate|constructor].
     + constructor; [destruct neg; cbn; discriminate|]. constructor; [cbn; discriminate|constructor].
   - destruct ic; cbn [of_frag to_frag c_inl f_inl]; (apply Forall_app; split; [apply IHe1; assumption|apply IHe2; assumption]).
+  - cbn [of_frag to_frag c_inl f_inl]. apply Forall_app. split; [apply IHe1; assumption|].
+    apply Forall_app. split; [constructor; [cbn; discriminate|constructor]|apply IHe2; assumption].
   - cbn [of_frag to_frag c_inl f_inl]. constructor; [cbn; discriminate|constructor].
   - cbn [of_frag to_frag c_inl f_inl]. apply Forall_app. split; [apply IHe; assumption|].
     constructor; [cbn; discriminate|]. constructor; [cbn; discriminate|constructor].
@@ -238,7 +249,7 @@ Lemma aprint_binary e t l r : as_binary e = Some (Some t, l, r) ->
   aprint e = aprint l ++ [aws; aop t; aws] ++ aprint r.
 Proof.
   intros H. destruct e; try discriminate H; cbn [as_binary] in H;
-    try (destruct k; try discriminate H); injection H as <- <- <-; reflexivity.
+    try (destruct k; try discriminate H); try (destruct s; try discriminate H); injection H as <- <- <-; reflexivity.
 Qed.
 Lemma at_off_binary off e t l r : as_binary e = Some (Some t, l, r) -> at_off off e ->
   at_off off l /\ at_off (off + ntoks l + 3) r.
@@ -396,6 +407,49 @@ Proof.
   eapply bodies_weaken; [|exact B1]. cbn [Ast.size]. lia.
 Qed.
 
+(* ---- sequences ---- *)
+Lemma comp_seq cont lk sp l r pc j ob jb :
+  comp cont lk (ESeq sp l r) pc j ob jb =
+  let a := sizes None l in let b := sizes None r in
+  let fl := comp cont None l pc j (ob + so b) (jb + sjo b) in
+  let fr := comp cont None r (pc + si a + 1) (j + sji a) ob jb in
+  mkFrag (f_inl fl ++ [ins I_UpdateValue] ++ f_inl fr) (f_ool fr ++ f_ool fl) (f_ji fl ++ f_ji fr) (f_jo fr ++ f_jo fl).
+Proof. reflexivity. Qed.
+
+Lemma step_seq l r i k tl tr : inl_spec l tl -> inl_spec r tr ->
+  inl_spec (ESeq Semi l r) (NBin i (hdef (ESeq Semi l r)) k tl tr).
+Proof.
+  intros Hl Hr rj lk cond s ob jb _. unfold inl_at. rewrite comp_seq.
+  set (a := sizes None l). set (b := sizes None r). cbv zeta.
+  destruct (Hl rj None false s (ob + so b) (jb + sjo b) (fun _ => eq_refl)) as (c1 & m1 & j1 & p1 & I1 & C1 & L1 & B1).
+  destruct (inl_at_sizes l None s _ _ c1 m1 j1 C1 L1) as [Ei Ej]. fold a in Ei, Ej.
+  set (s1 := sx s (c1 ++ [(I_UpdateValue, ONone)]) (m1 ++ [Some i]) j1).
+  assert (Ei1 : il0 s1 = il0 s + si a + 1).
+  { unfold s1. rewrite il0_sx, app_length. rewrite il0_sx in Ei. cbn [length]. lia. }
+  assert (Ej1 : jl0 s1 = jl0 s + sji a).
+  { unfold s1. rewrite jl0_sx. rewrite jl0_sx in Ej. exact Ej. }
+  destruct (Hr rj None false s1 ob jb (fun _ => eq_refl)) as (c2 & m2 & j2 & p2 & I2 & C2 & L2 & B2).
+  rewrite Ei1, Ej1 in C2, L2, B2.
+  set (Fl := comp c None l (il0 s) (jl0 s) (ob + so b) (jb + sjo b)) in *.
+  set (Fr := comp c None r (il0 s + si a + 1) (jl0 s + sji a) ob jb) in *.
+  exists (c1 ++ [(I_UpdateValue, ONone)] ++ c2), (m1 ++ [Some i] ++ m2), (j1 ++ j2), (p1 ++ p2).
+  cbn [f_inl f_ool f_ji f_jo img].
+  split; [|split; [|split]].
+  - change (hdef (ESeq Semi l r)) with D_ExpressionSeparator.
+    assert (I2' : Compile.inl empty_init lit_all rj (img tr) (Compile.plain c)
+                    (emit (sx s c1 m1 j1) (I_UpdateValue, ONone) (Some i)) = Ok (sx s1 c2 m2 j2, p2, []))
+      by (rewrite emit_sx; exact I2).
+    rewrite (inl_subexpr rj i D_ExpressionSeparator (img tl) (img tr) (mkCx c (option_map kdef lk) cond) s _ _ _ _ _ _ eq_refl I1 I2').
+    unfold s1. rewrite sx_sx, <- !app_assoc. reflexivity.
+  - apply conv_app; [exact C1|]. apply conv_app; [reflexivity|exact C2].
+  - rewrite !app_length. lia.
+  - destruct (comp_sizes sym_hash r c None (il0 s + si a + 1) (jl0 s + sji a) ob jb) as (_ & So & _ & Sjo). fold Fr b in So, Sjo.
+    apply bodies_app; [exact L1|exact L2| |].
+    + rewrite So, Sjo. eapply bodies_weaken; [|exact B1]. cbn [Ast.size]. lia.
+    + assert (Hj1 : length j1 = sji a) by (rewrite jl0_sx in Ej; lia). rewrite Hj1.
+      eapply bodies_weaken; [|exact B2]. cbn [Ast.size]. lia.
+Qed.
+
 (* ---- re-apply ---- *)
 Lemma comp_reapply cont lk x pc j ob jb :
   comp cont lk (EReapply x) pc j ob jb =
@@ -460,6 +514,7 @@ Proof.
   - destruct t as [| | | |b ? ? ?]; try contradiction. destruct b; try contradiction. intros _. reflexivity.
   - destruct t; try contradiction. intros [-> _]. reflexivity.
   - destruct t; try contradiction. intros [-> _]. reflexivity.
+  - destruct s; destruct t; try contradiction; intros [-> _]; reflexivity.
   - destruct t as [| | | |b ? ? ?]; try contradiction. destruct b; try contradiction. intros _. reflexivity.
   - destruct t; try contradiction. intros [-> _]. reflexivity.
 Qed.
